@@ -1,5 +1,5 @@
 """C02 — backend requests authenticated by per-backend HMAC (api_backend.go, backend_server.go, backend_client.go,
-backend_configuration.go / backend_storage_static.go for the backend a URL belongs to)."""
+backend_configuration.go / backend_storage_static.go / backend_storage_etcd.go for the backend a URL belongs to)."""
 import collections
 from ._util import verdict_stats as _verdict_stats
 
@@ -27,7 +27,8 @@ def c02_stats(cases, model):
                 out_kinds[f[1] + (":unconfigured" if f[2] == "-" else "")] += 1
             elif f[0] == "cfg":
                 nb = 0 if f[2] == "-" else len(f[2].split(","))
-                modes["compat" if f[1] != "-" else "backends:%d" % nb] += 1
+                mode = next((t[2:].split("%3b")[0] for t in f if t.startswith("u=")), "backends")
+                modes["compat" if f[1] != "-" else "%s:%d" % (mode, nb)] += 1
     reasons = collections.Counter()
     for ms in model:
         for m, v in ms:
@@ -65,8 +66,9 @@ CONFIG = dict(
     nontrivial=c02_nontrivial,
     rule="per case one backend configuration (1-3 backends on distinct or shared hosts — in half of the cases sibling urls of which "
          "one is a string prefix of another without being its parent, /one/ and /one2/, in random configuration order, written "
-         "with or without the final slash — with distinct, equal or one-character-apart "
-         "secrets; compat 'allowed' mode; allowall mode) served by a real Hub+BackendServer over a real HTTP/1.1 connection written "
+         "with or without the final slash; in two of five such cases the backends are announced through the real etcd "
+         "backend storage (EtcdKeyUpdated per key, no etcd server), which keeps urls as given — with distinct, equal or "
+         "one-character-apart secrets; compat 'allowed' mode; allowall mode) served by a real Hub+BackendServer over a real HTTP/1.1 connection written "
          "byte by byte; per reference request (random, body, checksum by the real CalculateBackendChecksum): the request as it is with "
          "and without backend header, single-bit flips of body/random/checksum, checksum and random truncated/extended/upper-cased/"
          "empty, body truncated/extended/empty, random/body boundary shifts in both directions, every other backend claimed / every "
@@ -77,12 +79,13 @@ CONFIG = dict(
          "session add/remove) to every backend — and to the urls next to a backend's — through PerformJSONRequest against a recording "
          "fake backend; a case is non-trivial if "
          "at least one request was accepted (200) and at least five were refused (403); distinct = distinct op lists",
-    trusted_base=["which backend a url belongs to: modelled (getBackendLocked / getConfiguredHosts, statements read from the source) and "
+    trusted_base=["which backend a url belongs to: modelled (getBackendLocked / getConfiguredHosts / the url EtcdKeyUpdated stores, statements read from the source) and "
                   "specified (url components) for plain http(s)://host/path urls in a configuration with backend urls; for other "
                   "header values and in the compat modes it is an input of the model (C13's subject). In both cases the harness "
                   "compares the op's claim with BackendConfiguration.GetBackend called directly and reports a difference (lookup=…)",
                   "url.Parse followed by URL.String() is the identity on plain urls; host table and scheme rule are subsumed by the "
-                  "comparison of whole url strings with a '/'-terminated entry url (not modelled separately)",
+                  "comparison of whole url strings with a '/'-terminated entry url (not modelled separately); etcd: the storage is driven through "
+                  "EtcdKeyUpdated in key order as a starting server receives the keys, the etcd client itself is not part of the run",
                   "whether an authenticated body is a valid 'message' request is an input (json.Unmarshal + CheckValid called by the harness)",
                   "net/http: header values reach the handler with leading/trailing blanks removed (the ops carry the trimmed values)",
                   "crypto/rand for the freshness of outgoing randoms (observed pairwise distinct per case, not proved)",
@@ -96,12 +99,13 @@ MANIFEST = dict(
          "of roomHandler as extracted from the source, of Calculate/ValidateBackendChecksum and of the outgoing signing, with the "
          "MAC as a parameter under an explicit ideal-MAC hypothesis; tied to the code by regenerated facts (header names, hash, "
          "order of MAC writes, whole-string comparison, statement order of roomHandler, nothing published before validation, single "
-         "signed outgoing POST site, random length, the statements of the url-to-backend lookup and of the url normalisation at "
-         "configuration time) and a differential run of the real BackendServer over real HTTP and of "
+         "signed outgoing POST site, random length, the statements of the url-to-backend lookup and of the url shaping at "
+         "configuration time / on an etcd update) and a differential run of the real BackendServer over real HTTP and of "
          "PerformJSONRequest against a recording backend, executing a Lean HMAC-SHA256 compared with crypto/hmac.",
     note="Trusted: Lean kernel, extractor, harness, net/http, body validity and (outside plain urls / in compat modes) backend "
          "lookup as inputs. The backend a plain url belongs to is proved to be the one whose url components lead the url's "
-         "(C02_lookup_owner), which needs the '/'-terminated comparison. Unforgeability of HMAC "
+         "(C02_lookup_owner) — for urls stored with the final slash (configuration file) and without it (etcd) —, which needs "
+         "the '/'-terminated comparison on both sides. Unforgeability of HMAC "
          "is assumed, not proved. The random/body boundary is not authenticated (proved as C02_boundary_shift; over HTTP such a "
          "request authenticates and fails in the JSON decoder with 400 instead of 403, publishing nothing).",
     technique="Lean 4 proof (characterisation of the interpreted handler, ideal-MAC corollaries) + regenerated facts + differential correspondence",
